@@ -1064,7 +1064,27 @@ impl_wrapper!(impl<T: TS> TS for std::cell::RefCell<T>);
 impl_wrapper!(impl<T: TS> TS for std::sync::Mutex<T>);
 impl_wrapper!(impl<T: TS> TS for std::sync::RwLock<T>);
 impl_wrapper!(impl<T: TS + ?Sized> TS for std::sync::Weak<T>);
-impl_wrapper!(impl<T: TS> TS for std::marker::PhantomData<T>);
+
+// serde serializes `PhantomData<T>` as a unit struct (`null`), whatever `T` is
+impl<T: ?Sized> TS for std::marker::PhantomData<T> {
+    type WithoutGenerics = Self;
+    type OptionInnerType = Self;
+    fn name() -> String {
+        "null".to_owned()
+    }
+    fn inline() -> String {
+        <Self as crate::TS>::name()
+    }
+    fn inline_flattened() -> String {
+        panic!("{} cannot be flattened", <Self as crate::TS>::name())
+    }
+    fn decl() -> String {
+        panic!("{} cannot be declared", <Self as crate::TS>::name())
+    }
+    fn decl_concrete() -> String {
+        panic!("{} cannot be declared", <Self as crate::TS>::name())
+    }
+}
 
 impl_tuples!(T1, T2, T3, T4, T5, T6, T7, T8, T9, T10);
 
